@@ -67,8 +67,8 @@ func init() {
 				paths = gen.SysPaths(2, 1, fnF, fnG)
 			}
 			nSys := len(paths) * len(gen.Battery)
-			nRand := size(tier, 80000, 1000000)
-			nStr := size(tier, 40000, 500000)
+			nRand := size(tier, 80000, 3000000)
+			nStr := size(tier, 40000, 1500000)
 			var src *strSource
 			return &harness.Plan{
 				N: nSys + nRand + nStr,
